@@ -129,7 +129,11 @@ def point_inputs(draw):
     nsp = draw(st.sampled_from([2, 3]))
     nt = draw(st.integers(1, 6))
     times = draw(st.lists(st.integers(0, nt + 1), min_size=0, max_size=10))
-    pts = [[t] + [draw(st.integers(0, 24)) / 4.0 for _ in range(nsp)] for t in times]
+    int_points = draw(st.integers(0, 3)) == 0  # pixel / voxel coordinates in an integer array
+    if int_points:
+        pts = [[t] + [draw(st.integers(0, 6)) for _ in range(nsp)] for t in times]
+    else:
+        pts = [[t] + [draw(st.integers(0, 24)) / 4.0 for _ in range(nsp)] for t in times]
     scale = draw(st.sampled_from([None, "aniso"]))
     if scale == "aniso":
         scale = [1.0] + [draw(st.sampled_from(DY)) for _ in range(nsp)]
@@ -138,7 +142,7 @@ def point_inputs(draw):
     if rmode == "dyadic":
         r = draw(st.integers(0, 40)) / 4.0
     return {"points": pts, "nsp": nsp, "scale": scale, "rmode": rmode, "r": r,
-            "pick": draw(st.integers(0, 10**6))}
+            "pick": draw(st.integers(0, 10**6)), "int_points": int_points}
 
 
 # ----------------------------------------------------------------------------------------
@@ -282,7 +286,9 @@ def probe_points(inp) -> ProbeResult:
     nodes = {i: (int(p[0]), [Fraction(c) * f for c, f in zip(p[1:], fs)]) for i, p in enumerate(pts)}
     r = inp["r"] if inp["r"] is not None else _occurring_r(nodes, inp["pick"])
     exact = _dyadic(Fraction(r))
-    arr = np.array(pts, dtype=float).reshape((len(pts), nsp + 1))
+    arr = np.array(pts, dtype=np.int64 if inp.get("int_points") else float).reshape((len(pts), nsp + 1))
+    if inp.get("int_points") and scale is not None and any(float(x) != int(x) for x in scale):
+        res.tags.append("c18:integer_points_fractional_scale")
     try:
         g = compute_graph_from_points_list(arr, r, scale=None if scale is None else list(scale))
     except Exception as e:  # noqa: BLE001
